@@ -16,7 +16,7 @@
    the output oracle of the correspondence checks uniqueness on every output file including those. *)
 From Coq Require Import List ZArith NArith Bool.
 Import ListNotations.
-From Verif Require Import Val Filenames Render RenderProofs.
+From Verif Require Import Val Filenames Render RenderProofs RenderProofs2.
 Local Open Scope Z_scope.
 
 (* Renderable.url in closed form, for every node of every document with distinct node identities: a node with a file -> base + its
@@ -232,3 +232,43 @@ Example C14_toc_nonvacuous :
   closed fm (E ex_docenv [T 1; E ex_sec1 [T 2; E ex_fn [T 3]; T 4]; E ex_sec2 [T 5]]) /\
   map a_ser (secfiles fm (E ex_docenv [T 1; E ex_sec1 [T 2; E ex_fn [T 3]; T 4]; E ex_sec2 [T 5]])) = [1; 2; 4].
 Proof. exact ex_toc. Qed.
+
+(* ---- added in the second deepening round ---- *)
+
+(* M3 in final form (the bookkeeping hypothesis of C14_nav_reaches_all is proved): in every document with distinct node identities, from
+   the document-level unit d -- the start page -- the next-links of SectionUtils.links reach every file-producing section of the document.
+   The only assumption on the document: d is the only node of level DOCUMENT_LEVEL at or below itself. *)
+Theorem C14_nav_reaches_all_doc :
+  forall fmap doc chd d dcs,
+    NoDup (sers doc) -> In (chd, d, dcs) (elems_ctx [] doc) -> a_level d = DOCUMENT_LEVEL ->
+    (forall b, In b (flat_map elements dcs) -> a_level b <> DOCUMENT_LEVEL) -> has_file fmap d = true ->
+    forall t, In t (filter (has_file fmap) (all_sections (E d dcs))) -> exists k, iter_next fmap doc k (a_ser d) = Some (a_ser t).
+Proof. exact nav_reaches_all_doc. Qed.
+Print Assumptions C14_nav_reaches_all_doc.
+
+(* C14_toc_reaches_all with its hypothesis [closed] proved for the assignment the Model computes: whenever the assignment succeeds, for every
+   toc-depth >= 1 and every unit whose sections only contain deeper levels ([nested]: what SectionUtils.digest builds), own-page table-of-contents
+   entries reach every file-producing section below the unit *)
+Theorem C14_toc_reaches_all_assigned :
+  forall c doc st files nonfiles depth ch a cs,
+    assign c doc = Some (AOk st files) -> NoDup (sers doc) -> ext (r_fc c) <> [] -> 1 <= depth ->
+    In (ch, a, cs) (elems_ctx [] doc) -> nested (E a cs) ->
+    forall b, In b (secfiles (the_fmap files) (E a cs)) -> toc_reach (the_fmap files) doc nonfiles depth (a_ser a) (a_ser b).
+Proof. exact toc_reaches_all_assigned. Qed.
+Print Assumptions C14_toc_reaches_all_assigned.
+
+(* the hypothesis names_nonempty of C14_url_target_exists holds for the assignment the Model computes (every name carries the extension) *)
+Theorem C14_assigned_names_nonempty :
+  forall c doc st files, assign c doc = Some (AOk st files) -> ext (r_fc c) <> [] -> names_nonempty (the_fmap files).
+Proof. exact assigned_nonempty. Qed.
+Print Assumptions C14_assigned_names_nonempty.
+
+Example C14_assigned_nonvacuous :
+  NoDup (sers ex_doc) /\ ext (r_fc ex_cfg) <> [] /\ DOCUMENT_LEVEL <= eff_level ex_cfg /\ eff_level ex_cfg < ENDSECTIONS_LEVEL /\ a_isdoc ex_root = true /\
+  nested (E ex_docenv [T 1; E ex_sec1 [T 2; E ex_fn [T 3]; T 4]; E ex_sec2 [T 5]]) /\
+  a_level ex_docenv = DOCUMENT_LEVEL /\
+  (forall b, In b (flat_map elements [T 1; E ex_sec1 [T 2; E ex_fn [T 3]; T 4]; E ex_sec2 [T 5]]) -> a_level b <> DOCUMENT_LEVEL) /\
+  In ([ex_sec1; ex_docenv; ex_root], 2)
+     (flat_map (fun c => if vis ex_sec1 c then shown_leaves (the_fmap ex_files) std_shows [ex_sec1; ex_docenv; ex_root] c else []) [T 2; E ex_fn [T 3]; T 4]) /\
+  has_file (the_fmap ex_files) ex_sec1 = (a_level ex_sec1 <=? eff_level ex_cfg).
+Proof. exact ex_assigned. Qed.
